@@ -132,7 +132,10 @@ def oracle(inp):
       return fail("hyperparameters do not read back as set", rb, hp)
     return None
   cls, hp = inp["cls"], inp["hp"]
-  k = getattr(cv, cls)(numpy.array(hp))
+  from lib import gpgen
+  k = gpgen.make_cov(dict(cls=cls, hp=hp, life=inp.get("life", "fresh")))   # fresh / re-assigned / overwritten in place and assigned again
+  if [float(v) for v in k.hyperparameters] != [float(v) for v in hp]:
+    return fail("hyperparameters do not read back as set", [float(v) for v in k.hyperparameters], hp)
   x, z = numpy.array(inp["x"], dtype=float), numpy.array(inp["z"], dtype=float)
   alpha, ls = hp[0], hp[1:]
   def r(a, b):
@@ -156,8 +159,12 @@ def oracle(inp):
         return fail("cross-matrix entry differs from alpha*phi(r)", float(cross[i, j]), e)
   noise = numpy.array(inp.get("noise", [0.0] * len(z)))
   sym = k.build_kernel_matrix(z, noise_variance=noise)
-  for a in range(len(z)):
-    for b in range(len(z)):
+  pairs = [(a, b) for a in range(len(z)) for b in range(len(z))]
+  if len(z) > 60:   # large point sets (the code may switch algorithms with the number of points): the diagonal and a seeded sample of entries
+    rs = numpy.random.RandomState(len(z))
+    pairs = [(a, a) for a in range(len(z))] + [(int(rs.randint(len(z))), int(rs.randint(len(z)))) for _ in range(600)]
+  for a, b in pairs:
+    if True:
       e = alpha * phi(cls, r(z[a], z[b])) + (noise[a] if a == b else 0.0)
       if abs(sym[a, b] - e) > tol * (alpha + noise[a]):
         return fail("symmetric-matrix entry differs from alpha*phi(r) + noise on the diagonal", float(sym[a, b]), e)
@@ -194,6 +201,9 @@ def gen_input(rng):
   cls = rng.choice(KERNELS)
   hp = [10.0 ** rng.uniform(-6, 6)] + [10.0 ** rng.uniform(-3, 3) for _ in range(dim)]
   n, m = rng.randint(1, 7), rng.randint(1, 9)
+  if rng.random() < 0.03:   # many sampled points in few dimensions
+    dim, m = rng.randint(1, 3), rng.choice([999, 1000, 1001, 1500])
+    hp = [10.0 ** rng.uniform(-1, 1)] + [10.0 ** rng.uniform(-1, 1) for _ in range(dim)]
   sc = 10.0 ** rng.uniform(-2, 2)
   x = [[rng.uniform(-1, 1) * sc for _ in range(dim)] for _ in range(n)]
   z = [[rng.uniform(-1, 1) * sc for _ in range(dim)] for _ in range(m)]
@@ -206,7 +216,7 @@ def gen_input(rng):
     z[0] = [v + 1e4 * sc for v in z[0]]     # very distant
   if rng.random() < 0.3:
     x[0] = list(z[0])
-  return dict(kind="kernel", cls=cls, hp=hp, x=x, z=z, noise=[rng.choice([0.0, 1e-12, 1e-3, 1.0]) * hp[0] for _ in range(m)],
+  return dict(kind="kernel", cls=cls, hp=hp, x=x, z=z, life=rng.choice(["fresh", "fresh", "reassigned", "inplace"]), noise=[rng.choice([0.0, 1e-12, 1e-3, 1.0]) * hp[0] for _ in range(m)],
               shift=[rng.uniform(-1, 1) * sc for _ in range(dim)])
 
 
